@@ -9,7 +9,8 @@ variants = [
   {name = "subdivisions_wide", enforce = "computeSubdivisions", defines = ["H_SUBDIV", "WIDE"], solver = "kissat", timeout = 400},
   {name = "findBinX", enforce = "HDP_findBinByX", defines = ["H_FINDX"]},
   {name = "findBinY", enforce = "HDP_findBinByY", defines = ["H_FINDY"]},
-  {name = "demands", enforce = "HDP_demands", defines = ["H_DEMANDS"], solver = "kissat"},
+  {name = "demands", enforce = "HDP_demands", defines = ["H_DEMANDS"]},
+  {name = "area", enforce = "area_accessor", defines = ["H_CAREA"], solver = "cvc5"},
   {name = "clipRows", enforce = "DensityGrid_clipRows", defines = ["H_CLIP"]},
   {name = "binContribution", enforce = "bin_contribution", defines = ["H_CONTRIB"], loop_contracts = false, solver = "kissat"},
   {name = "placementArea", enforce = "DensityGrid_computePlacementArea", defines = ["H_AREA"]},
@@ -124,12 +125,14 @@ __CPROVER_decreases(mx - mn)
 
 #ifdef H_DEMANDS
 int *g_dem; int n;
+long long *g_area;   /* ghost: Circuit::area(c) per cell (the accessor itself: variant area) */
+#define AREA_OF(c, cell) (g_area[cell])
 #define VEC_PUSH_BACK_D(x) do { g_dem[demands_size] = (x); demands_size = demands_size + 1; } while (0)
 void HDP_demands(const Circuit *circuit_p)
-__CPROVER_requires(__CPROVER_is_fresh(circuit_p, sizeof(Circuit)) && 1 <= n && n <= NMAX && CFRESH(circuit_p, cellWidth_, n, int) && CFRESH(circuit_p, cellHeight_, n, int) && CFRESH(circuit_p, cellIsFixed_, n, bool) && __CPROVER_is_fresh(g_dem, n * sizeof(int)))
-__CPROVER_requires(0 <= g && g < n && MAGSZ(circuit_p->cellWidth_[g]) && MAGSZ(circuit_p->cellHeight_[g]))
+__CPROVER_requires(__CPROVER_is_fresh(circuit_p, sizeof(Circuit)) && 1 <= n && n <= NMAX && CFRESH(circuit_p, cellWidth_, n, int) && CFRESH(circuit_p, cellIsFixed_, n, bool) && __CPROVER_is_fresh(g_dem, n * sizeof(int)) && __CPROVER_is_fresh(g_area, n * sizeof(long long)))
+__CPROVER_requires(0 <= g && g < n)
 /* C03/C16: fixed cells have zero demand, movable cells their area */
-__CPROVER_ensures(g_dem[g] == (circuit_p->cellIsFixed_[g] ? 0 : (int)Circuit_area(circuit_p, g)))
+__CPROVER_ensures(g_dem[g] == (circuit_p->cellIsFixed_[g] ? 0 : (int)g_area[g]))
 __CPROVER_assigns(__CPROVER_object_whole(g_dem))
 /*@extract
 file = "src/place_global/density_grid.cpp"
@@ -137,22 +140,32 @@ head = 'HierarchicalDensityPlacement HierarchicalDensityPlacement::fromIspdCircu
 slice_from = 'for \(int i = 0; i < circuit\.nbCells\(\); \+\+i\) \{'
 slice_to = 'return HierarchicalDensityPlacement\(grid, demands\);'
 nloops = 1
-rewrites = [['demands\.push_back\(', 'VEC_PUSH_BACK_D(', '2'], ['\bcircuit\.nbCells\(\)', 'Circuit_nbCells(circuit_p)', '1'], ['\bcircuit\.(isFixed|area)\(', 'Circuit_\1(circuit_p, ', '2']]
+rewrites = [['demands\.push_back\(', 'VEC_PUSH_BACK_D(', '2'], ['\bcircuit\.nbCells\(\)', 'Circuit_nbCells(circuit_p)', '1'], ['\bcircuit\.isFixed\(', 'Circuit_isFixed(circuit_p, ', '1+'], ['\bcircuit\.area\(', 'AREA_OF(circuit_p, ', '1+']]
 [[loops]]
 ordinal = 1
-contract = '''
+contract = """
 __CPROVER_assigns(i, demands_size, __CPROVER_object_whole(g_dem))
 __CPROVER_loop_invariant(0 <= i && i <= n && demands_size == i)
 __CPROVER_loop_invariant(g < i ==> g_dem[g] == g_expected)
 __CPROVER_decreases(n - i)
-'''
+"""
 [[ghosts]]
 at = 'before:1'
-text = '''int demands_size = 0; GHOST(const int g_expected = circuit_p->cellIsFixed_[g] ? 0 : (int)Circuit_area(circuit_p, g);)'''
+text = """int demands_size = 0; GHOST(const int g_expected = circuit_p->cellIsFixed_[g] ? 0 : (int)g_area[g];)"""
 [[ghosts]]
 at = 'body_start:1'
-text = '''GHOST(const int g_w = circuit_p->cellWidth_[i]; const int g_h = circuit_p->cellHeight_[i];) __CPROVER_assume(MAGSZ(g_w) && MAGSZ(g_h) && (long long)g_w * g_h < (1LL << 31)); /* INSTANTIATE MAG(i): cell area below 2^31 (C07 domain) */'''
+text = """GHOST(const long long g_a = g_area[i];) __CPROVER_assume(0 <= g_a && g_a < (1LL << 31)); /* INSTANTIATE MAG(i): cell area below 2^31 (C07 domain) */"""
 @*/
+#endif
+
+#ifdef H_CAREA
+int n;
+long long area_accessor(const Circuit *circuit_p, int cell)
+__CPROVER_requires(__CPROVER_is_fresh(circuit_p, sizeof(Circuit)) && 1 <= n && n <= NMAX && CFRESH(circuit_p, cellWidth_, n, int) && CFRESH(circuit_p, cellHeight_, n, int) && 0 <= cell && cell < n)
+__CPROVER_requires(MAGSZ(circuit_p->cellWidth_[cell]) && MAGSZ(circuit_p->cellHeight_[cell]))
+__CPROVER_ensures(__CPROVER_return_value == (long long)circuit_p->cellWidth_[cell] * (long long)circuit_p->cellHeight_[cell])
+__CPROVER_assigns()
+{ return Circuit_area(circuit_p, cell); }
 #endif
 
 #ifdef H_CLIP
@@ -313,6 +326,8 @@ void harness(void) {
   HDP *h; HDP_findBinByY(h, a);
 #elif defined(H_DEMANDS)
   Circuit *ci; HDP_demands(ci);
+#elif defined(H_CAREA)
+  Circuit *ci; area_accessor(ci, a);
 #elif defined(H_CLIP)
   Row *r; DensityGrid_clipRows(r, a, b);
 #elif defined(H_CONTRIB)
